@@ -90,7 +90,7 @@ def run(ctx: Ctx, driver: Driver):
         vouts.append(str(got).lower())
         vlines.append(f"srp.verify {hx(b'Pair-Setup')} {hx(pin_ctl.encode())} {hx(salt)} {hx(Bb)} {a} {hx(M)}")
 
-    n = ctx.budget(60, 3000)
+    n = ctx.budget(60, 1200)
     for i in range(n):
         pin = rng.choice(pins)
         salt = rng.choice([rb(16), bytes(16), b"\0" + rb(15), b"\0\0\0" + rb(13)])
